@@ -238,10 +238,10 @@ def one_case(G, n, ntags, roots, pruning, use_beta, beta, penalty, nbest):
     if status not in (0, 1):
         fail('C01', 'parse_sentence did not return 0/1', status=status, **ctx)
         return
-    if G.mixed and status == 1:
+    if (G.mixed or penalty < 0) and status == 1:
         stats['failed_parse'] += 1
         return
-    if (status == 1) != (len(allder) == 0):
+    if penalty >= 0 and (status == 1) != (len(allder) == 0):
         fail('C01', 'reported as failed although a licensed derivation exists' if status == 1 else 'a parse is returned although no licensed derivation exists',
              n_derivations=len(allder), **ctx)
         if status == 1:
@@ -256,8 +256,8 @@ def one_case(G, n, ntags, roots, pruning, use_beta, beta, penalty, nbest):
         got.append(check_item_tree(G, it, tag, dep, n, roots, adm, penalty, ctx))
     if any(g is None for g in got):
         return
-    if G.mixed:
-        return          # optimality, pop order and k-best are stated for head-uniform grammars only
+    if G.mixed or penalty < 0:
+        return          # optimality, pop order and k-best are stated for head-uniform grammars and unary penalties >= 0 only
     if abs(got[0] - scores[0]) > TOL * max(1.0, abs(scores[0])):
         fail('C01', 'first parse is not a highest-scoring derivation', returned=got[0], best=scores[0], **ctx)
         if pops:
@@ -304,7 +304,7 @@ def main():
         pruning = rng.choice([1, 2, 3, 50])
         use_beta = rng.random() < 0.6
         beta = rng.choice([0.00001, 0.01, 0.1, 0.5, 0.9])
-        penalty = rng.choice([0.0, 0.1, 1.0])
+        penalty = rng.choice([0.0, 0.1, 1.0, 0.1, -0.5])       # a negative penalty (a bonus) is outside C01's premise but inside C09's quantifier
         nbest = rng.choice([1, 1, 2, 3, 5, 50])
         one_case(G, n, ntags, roots, pruning, use_beta, beta, penalty, nbest)
     print(json.dumps(dict(evaluations=stats['n'], distinct_nontrivial=stats['with_parse'], failed_sentences=stats['failed_parse'], nodes_checked=stats['nodes'],
